@@ -16,7 +16,8 @@ Supported subset (anything else raises `Unsupported` = "broken tie", never a gue
   * statements: `return`, assignment / augmented assignment to a local name or to a
     `self._field`, `if/elif/else` with fall-through (translated in continuation-passing
     style, so early returns and "falls out of the if" both work), `raise X(...)`,
-    whitelisted no-op expression statements, docstrings, `pass`;
+    whitelisted no-op expression statements, `with <whitelisted lock>:` (body translated in place),
+    docstrings, `pass`;
   * expressions: int/float literals (floats become the exact rational of their shortest decimal
     text), names, `+ - * / // %`, unary minus, comparisons (chained too), `and/or/not`,
     `a if c else b`, `type(x) is int|float` dispatch (also `type(a) is type(b) is int`,
@@ -401,6 +402,7 @@ class Translator:
         self.assumptions = assumptions or {}     # source text -> True/False/('extern', name, ty)
         self.used_assumptions = set()
         self.skip_calls = set(skip_calls)        # dotted callee names of no-op statements
+        self.lock_exprs = set()                   # context managers that are locks (`with lock:` is transparent)
         self.state = state                        # {'struct': 'TC', 'fields': {'_tempo': 'tempo', ..}}
         self.partial_ok = partial_ok              # exec mode: transcendental return -> error value
         self.implicit_types = dict(implicit or {})
@@ -914,6 +916,16 @@ class Translator:
                 b = self.block(s.orelse, cc.assume(c, False), cont, i2)
                 return f'if {c} then\n{i2}{a}\n{i}else\n{i2}{b}'
             return self.guard(ctx, ind, emit_if)
+        if isinstance(s, ast.With):
+            # `with <lock>:` is transparent for the sequential model: the body runs in place.  Only
+            # whitelisted lock expressions, without `as` target; any other context manager aborts.
+            for item in s.items:
+                d = self.dotted(item.context_expr)
+                if item.optional_vars is not None or d not in self.lock_exprs:
+                    raise Unsupported(f'`with {ast.unparse(item.context_expr)}` at line {s.lineno}: '
+                                      'not a whitelisted lock')
+                self.used_assumptions.add(f'lock (transparent): with {d}')
+            return self.block(list(s.body) + list(rest), ctx, k, ind)
         raise Unsupported(f'statement `{type(s).__name__}` at line {getattr(s, "lineno", "?")}')
 
     def ret(self, value, ctx, ind):
@@ -1537,6 +1549,7 @@ def unit_c12(repo):
     ex.assumptions = dict(C12_ASSUME)
     ex.skip_calls = {'mdl.NotificationCenter.notify',          # observers: no effect on the numeric state
                      '_libsc3.main._clock_scheduler.retime'}    # NRT: pending tasks keep their beat
+    ex.lock_exprs = {'_libsc3.main._main_lock', 'self._sched_cond'}
     ex.state = C12_STATE
     infos = {}
     for name, kind, sigs in C12_FUNCS:
